@@ -72,4 +72,15 @@ pub open spec fn fresh_history(h: Seq<Event>) -> bool
     }
 }
 
+/// C01/C08: what GetChildVersion answers in a state (gcv.found / gcv.split of U1)
+pub enum GcvAnswer { NoSuchClient, NotFound, Gone, Found(GVersion) }
+
+pub open spec fn gcv_spec(c: CState, p: Uuid) -> GcvAnswer {
+    if !c.exists { GcvAnswer::NoSuchClient }
+    else if c.children.dom().contains(p) && c.versions.dom().contains(c.children[p]) { GcvAnswer::Found(c.versions[c.children[p]]) }
+    else if accept(c, p) { GcvAnswer::NotFound }
+    else { GcvAnswer::Gone }
+}
+
+
 } // verus!
